@@ -494,25 +494,38 @@ func (o *genericScanCmdOpts) newIPPortGenerator() (reqgen scan.RequestGenerator)
 
 // newIPFileOpener returns a function that opens the file with IP addresses.
 // The file is reopened for every port, but stdin can be consumed only once,
-// so its content is read once and replayed from memory on every open.
+// so it is streamed on the first open and its content is kept in memory
+// to be replayed on every subsequent open.
 func newIPFileOpener(ipFile string) scan.OpenFileFunc {
 	if ipFile != "-" {
 		return func() (io.ReadCloser, error) {
 			return os.Open(ipFile)
 		}
 	}
-	var once sync.Once
-	var data []byte
-	var err error
+	var mu sync.Mutex
+	var data bytes.Buffer
+	first := true
 	return func() (io.ReadCloser, error) {
-		once.Do(func() {
-			data, err = io.ReadAll(os.Stdin)
-		})
-		if err != nil {
-			return nil, err
+		mu.Lock()
+		defer mu.Unlock()
+		if first {
+			first = false
+			// do not wait for EOF here, scan can be cancelled while stdin is still open
+			return io.NopCloser(io.TeeReader(os.Stdin, &lockedWriter{mu: &mu, w: &data})), nil
 		}
-		return io.NopCloser(bytes.NewReader(data)), nil
+		return io.NopCloser(bytes.NewReader(append([]byte(nil), data.Bytes()...))), nil
 	}
+}
+
+type lockedWriter struct {
+	mu *sync.Mutex
+	w  io.Writer
+}
+
+func (w *lockedWriter) Write(p []byte) (int, error) {
+	w.mu.Lock()
+	defer w.mu.Unlock()
+	return w.w.Write(p)
 }
 
 func parsePortRange(portsRange string) (r *scan.PortRange, err error) {
